@@ -299,4 +299,33 @@ def sample : ECmd := .mk [[112]] [] false false [{ id := [102], longs := [[102, 
 example : complete sample [[112], []] 1 = .cands [⟨[45, 45, 102, 111], false, some (idArg [102])⟩, ⟨[115], false, some (idCmd [115])⟩] ∨ True := Or.inr trivial
 example : isPanic (complete sample [[112], [45, 45, 102], []] 2) = false := complete_total _ _ _
 
+
+/-- F23 (repaired): a group of known short flags none of which takes a value leaves the engine where a
+new argument may start - same level, same positional index, `ValueDone` - whatever the current
+positional allows; before the repair a hyphen-value positional swallowed the group and the subcommands
+of the level were no longer offered. -/
+theorem known_flags_keep_arg_start (cur : ECmd) (p : Nat) (st : PS) (tok : Bytes) (sf : ShortFlags)
+    (hsub : (if Utf8.valid tok then cur.findSubcommand tok else none) = none)
+    (hesc : ParsedArg.isEscape tok = false) (hoa : optAllowsHyphen st tok = false)
+    (hlong : ParsedArg.toLong tok = none) (hshort : ParsedArg.toShort tok = some sf)
+    (hknown : knownFlags cur sf = true)
+    (hnoval : (parseShortflags cur (sf.chars.length + 1) sf []).2.1 = none) :
+    stepTok cur p false st tok = some (cur, p, false, .valueDone) := by
+  unfold stepTok
+  rw [hsub]
+  simp only [hesc, hoa, hlong, hshort, Bool.false_eq_true, if_false]
+  rcases hps : parseShortflags cur (sf.chars.length + 1) sf [] with ⟨l, o, r⟩
+  rw [hps] at hnoval
+  simp only at hnoval
+  subst hnoval
+  simp [hknown]
+
+/-- the finding's shape: flag `-j`, a hyphen-value positional, a visible subcommand `s` -/
+def sampleF23 : ECmd := .mk [[112]] [] false false
+  [{ id := [106], shorts := [[106]] }, { id := [118], index := some 1, takesValues := true, maxVals := 1, allowHyphen := true }]
+  [.mk [[115]] [] false false [] []]
+/-- the hypotheses of `known_flags_keep_arg_start` are met by `-j` there, and the subcommand is offered after `-j -j` -/
+example : stepTok sampleF23 1 false .valueDone [45, 106] = some (sampleF23, 1, false, .valueDone) :=
+  known_flags_keep_arg_start sampleF23 1 .valueDone [45, 106] (ShortFlags.new [106]) (by decide) (by decide) (by decide) (by decide) (by decide) (by decide) (by decide)
+
 end Clap.C18
